@@ -90,6 +90,10 @@ fn finish(rep: &mut Report, scenario: &str, seed: u64, index: u64, shared: &Shar
     rep.history(sig, nontrivial, || sample);
 }
 
+fn free_stats() -> sched::RunStats {
+    sched::RunStats { steps: 0, switches: 0, trace_hash: 0, budget_exhausted: false, lock_blocks: 0, kernel_blocks: 0, points_by_id: [0; 16] }
+}
+
 fn policy_for(rng: &mut Rng) -> Policy {
     match rng.below(4) {
         0 => Policy::Random(100),
@@ -102,7 +106,7 @@ fn policy_for(rng: &mut Rng) -> Policy {
 // ---------------------------------------------------------------------------
 // C04: concurrent submitters on tiny queues, with the kernel consuming.
 
-pub fn c04_schedule(seed: u64, index: u64, rep: &mut Report) {
+pub fn c04_schedule(seed: u64, index: u64, rep: &mut Report, free: bool) {
     let mut rng = Rng::derive(seed, 0xC04, index);
     let sq_size = *rng.pick(&[1u32, 2, 2, 4, 8]);
     let nsub = 2 + rng.below(3) as usize;
@@ -254,7 +258,12 @@ pub fn c04_schedule(seed: u64, index: u64, rep: &mut Report) {
         }));
     }
     let policy = policy_for(&mut rng);
-    let stats = sched::run(threads, rng.next(), policy, 400_000);
+    let stats = if free {
+        sched::run_free(threads, rng.next());
+        free_stats()
+    } else {
+        sched::run(threads, rng.next(), policy, 400_000)
+    };
     // Oracle: every submission reached the kernel exactly once, unmodified.
     {
         let k = simk::k();
@@ -308,7 +317,8 @@ pub fn c04_schedule(seed: u64, index: u64, rep: &mut Report) {
     simk::k().sync_fd_events();
     let sig = fnv(stats.trace_hash, &[sq_size as u8, nsub as u8, ops_per as u8]);
     let _ = ring_fd;
-    finish(rep, "c04", seed, index, &shared, sig, stats.switches >= 2, format!("sq={sq_size} submitters={nsub} ops/thread={ops_per} start={start:#x} sqpoll={sqpoll} steps={} switches={} resolved={}", stats.steps, stats.switches, shared.resolved.load(Ordering::SeqCst)));
+    let sig = if free { fnv(index, &[sq_size as u8, nsub as u8, 0xF4]) } else { sig };
+    finish(rep, if free { "c04free" } else { "c04" }, seed, index, &shared, sig, free || stats.switches >= 2, format!("sq={sq_size} submitters={nsub} ops/thread={ops_per} start={start:#x} sqpoll={sqpoll} steps={} switches={} resolved={}", stats.steps, stats.switches, shared.resolved.load(Ordering::SeqCst)));
 }
 
 /// C04 single-threaded wrap sweep: all start values x sizes.
@@ -490,7 +500,7 @@ pub fn c08_wrap_marathon(seed: u64, index: u64, cycles: u64, rep: &mut Report) {
 // C08: concurrent releases from several threads with the kernel looking at the
 // buffer ring at every scheduling point.
 
-pub fn c08_release_schedule(seed: u64, index: u64, rep: &mut Report) {
+pub fn c08_release_schedule(seed: u64, index: u64, rep: &mut Report, free: bool) {
     use a10::io::{ReadBuf, ReadBufPool};
     let mut rng = Rng::derive(seed, 0xC08B, index);
     let pool_size = *rng.pick(&[1u16, 2, 4, 8]);
@@ -582,7 +592,12 @@ pub fn c08_release_schedule(seed: u64, index: u64, rep: &mut Report) {
             }));
         }
         let policy = policy_for(&mut rng);
-        let stats = sched::run(threads, rng.next(), policy, 200_000);
+        let stats = if free {
+            sched::run_free(threads, rng.next());
+            free_stats()
+        } else {
+            sched::run(threads, rng.next(), policy, 200_000)
+        };
         total_switches += stats.switches;
         trace_hash = fnv(trace_hash ^ stats.trace_hash, &[round as u8]);
         // All buffers must be the kernel's again.
@@ -609,13 +624,14 @@ pub fn c08_release_schedule(seed: u64, index: u64, rep: &mut Report) {
     rep.cell(format!("release:pool={pool_size}"));
     rep.count("sched_switches", total_switches);
     let sig = fnv(trace_hash, &[pool_size as u8, rounds as u8, pre as u8]);
-    finish(rep, "c08mt", seed, index, &shared, sig, total_switches >= 2, format!("concurrent-release pool={pool_size} rounds={rounds} pre-cycles={pre} switches={total_switches}"));
+    let sig = if free { fnv(index, &[pool_size as u8, 0xF8]) } else { sig };
+    finish(rep, if free { "c08free" } else { "c08mt" }, seed, index, &shared, sig, free || total_switches >= 2, format!("concurrent-release pool={pool_size} rounds={rounds} pre-cycles={pre} switches={total_switches}"));
 }
 
 // ---------------------------------------------------------------------------
 // C11: SubmissionQueue::wake never loses a wake-up.
 
-pub fn c11_schedule(seed: u64, index: u64, rep: &mut Report) {
+pub fn c11_schedule(seed: u64, index: u64, rep: &mut Report, free: bool) {
     let mut rng = Rng::derive(seed, 0xC11, index);
     let ring_type = *rng.pick(&["default", "default", "kernel-thread", "single-issuer"]);
     let family = *rng.pick(&["S1-concurrent", "S1-concurrent", "S2-wake-before-poll", "S3-poll-loop"]);
@@ -717,7 +733,12 @@ pub fn c11_schedule(seed: u64, index: u64, rep: &mut Report) {
         }));
     }
     let policy = policy_for(&mut rng);
-    let stats = sched::run(threads, rng.next(), policy, 200_000);
+    let stats = if free {
+        sched::run_free(threads, rng.next());
+        free_stats()
+    } else {
+        sched::run(threads, rng.next(), policy, 200_000)
+    };
     // A poll that could never return is a lost wake-up.
     let kv = simk::k().take_violations();
     for v in kv {
@@ -760,5 +781,6 @@ pub fn c11_schedule(seed: u64, index: u64, rep: &mut Report) {
     }
     let _ = ring_fd;
     let sig = fnv(stats.trace_hash, format!("{family}{ring_type}{nwakers}{fill_queue}").as_bytes());
-    finish(rep, "c11", seed, index, &shared, sig, stats.switches >= 1 || family == "S2-wake-before-poll", format!("{family} ring={ring_type} wakers={nwakers} sq={sq_size} queue-full={fill_queue} polls={polls_wanted} switches={} kernel-blocks={}", stats.switches, stats.kernel_blocks));
+    let sig = if free { fnv(index, format!("{family}{ring_type}{nwakers}free").as_bytes()) } else { sig };
+    finish(rep, if free { "c11free" } else { "c11" }, seed, index, &shared, sig, free || stats.switches >= 1 || family == "S2-wake-before-poll", format!("{family} ring={ring_type} wakers={nwakers} sq={sq_size} queue-full={fill_queue} polls={polls_wanted} switches={} kernel-blocks={}", stats.switches, stats.kernel_blocks));
 }
